@@ -109,11 +109,21 @@ CSpec == TInit /\ [][CNext]_tvars
 -----------------------------------------------------------------------------
 (* reporting form of the property predicates (pass P): TRUE in every state; every failing instance is printed *)
 Viol(r) == PrintT(<<"VIOL", ToJson(r)>>)
-Wit(d, b) == [role |-> IF b = win[d] THEN "winner" ELSE "loser", st |-> leaves[d][b].st,
-              rej |-> ~Accepted(fn, leaves[d][b].cls), dem |-> b \in dem[d]]
+Wit(d, b, fld) == [role |-> IF b = win[d] THEN "winner" ELSE "loser", st |-> leaves[d][b].st,
+                   rej |-> ~Accepted(fn, leaves[d][b].cls), dem |-> b \in dem[d],
+                   asRaw |-> LET r == Raw(fn, leaves[d][b].cls)      \* the stored value is what the rejected evaluation computed
+                             IN IF fld = "ch" THEN st[d].ch[b] = r.ch ELSE IF fld = "acc" THEN st[d].acc = r.acc ELSE st[d].rol = r.rol]
+(* users who have observed (since the resync) the leaf differently from what the table confers on them: listed / fetchable
+   although its channels under the new function are none of theirs, or the other way round *)
+Affected(d, b, fld) ==
+  IF fld # "ch" THEN {}
+  ELSE {u \in Users : seen[u].on /\
+          LET should == Out(fn, leaves[d][b].cls).ch \cap Eff(u) # {}
+          IN \/ (b = win[d] /\ (d \in seen[u].vis) # should)
+             \/ (leaves[d][b].st = "live" /\ b \notin dem[d] /\ (<<d, b>> \in seen[u].vrev) # should)}
 RepPerDoc ==
   PerDocFresh \/ \A x \in Stale :
-    Viol([inv |-> "PerDocFresh", l |-> l, d |-> x[1], b |-> x[2], fld |-> x[3], wit |-> Wit(x[1], x[2]), regen |-> last.regen,
+    Viol([inv |-> "PerDocFresh", l |-> l, d |-> x[1], b |-> x[2], fld |-> x[3], wit |-> Wit(x[1], x[2], x[3]), regen |-> last.regen, rw |-> x[1] \in last.dver, affected |-> Affected(x[1], x[2], x[3]),
           got  |-> IF x[3] = "ch" THEN st[x[1]].ch[x[2]] ELSE IF x[3] = "acc" THEN st[x[1]].acc ELSE st[x[1]].rol,
           want |-> LET o == Out(fn, leaves[x[1]][x[2]].cls) IN IF x[3] = "ch" THEN o.ch ELSE IF x[3] = "acc" THEN o.acc ELSE o.rol])
 RepPrinc ==
